@@ -27,6 +27,14 @@ component runs is the text AFTER its variables got their values, so a changed va
 an argument / the image (component, stage, global or platform definition; the same package on another platform; a
 sibling with the same template and another value) must change the strong hash, while the same text spelled literally, a
 shadowed or unrelated definition, or a platform that leaves the variable alone must not.
+
+Contents are BYTES (family B in checks/_c16_fam.py; the content edits R3/R6/U2 of the chain workload): a referenced file
+whose bytes change minimally in a way a text-mode / decoding / normalising reader would not see (LF/CRLF/CR, one 0x0D in
+front of a 0x0A in a binary file, trailing newline, BOM, NUL, invalid UTF-8 inserted / replaced by another invalid byte,
+NFC vs NFD, trailing space, case of one byte, one byte appended at exactly 4/8/64 KiB, one byte changed after 64 KiB),
+consumed as data / external / producer file, on and off the command line, ref/copy/link/output, must change the strong
+hash (and leave the fuzzy hash equal when another component produced it); the same bytes under another file name, or a
+sibling naming another file with the same bytes, must give the same strong hash.
 """
 from __future__ import annotations
 
@@ -468,7 +476,7 @@ def main():
              "of 1 B .. >64 KiB, equal-content files, references repeated on the command line, lsf/kubernetes images) "
              "differing in exactly one aspect, plus three families of small documents (absolute-path references, order "
              "of the references field, executable/arguments/image spelled through component/stage/global/platform "
-             "variables); a pair is non-trivial when E has both hashes and E' loaded; distinct = "
+             "variables, byte-minimal content differences per kind and consumption route); a pair is non-trivial when E has both hashes and E' loaded; distinct = "
              "distinct (edit kind, structural class of E: chain length, directory reference, image backend, #data "
              "files named on the command line)",
         assumptions=[
